@@ -372,7 +372,7 @@ var timeoutsLong = []time.Duration{2100 * time.Millisecond, 2300 * time.Millisec
 
 func drawOps(t *rapid.T) []op {
 	// (rapid favours the front of the list)
-	kinds := []string{"wait", "start", "stop", "wait", "start", "stop", "running", "wait", "remove", "start", "stop", "running"}
+	kinds := []string{"wait", "start", "stop", "wait", "start", "stop", "running", "wait", "remove", "start", "stop", "running", "addagain"}
 	raw := rapid.SliceOfN(rapid.Custom(func(t *rapid.T) op {
 		o := op{Kind: rapid.SampledFrom(kinds).Draw(t, "kind")}
 		if o.Kind == "wait" {
@@ -484,6 +484,11 @@ func runHistory(t world.TB, timeout time.Duration, npeers int, lateAdd bool, ops
 		case "running":
 			exec(o, func() {})
 			checkRunning("in the history")
+		case "addagain":
+			// AddFunctionType(heartbeat) for a feature that has the function already: nothing is added, nothing
+			// starts or stops - in particular a stopped heartbeat stays stopped
+			exec(o, func() { fx.feat.AddFunctionType(model.FunctionTypeDeviceDiagnosisHeartbeatData, true, false) })
+			checkRunning("after AddFunctionType(heartbeat) for a function the feature already has")
 		case "wait":
 			from := fx.obs.count(0)
 			if running {
